@@ -99,6 +99,23 @@ Proof.
 Qed.
 End PrefMixCts.
 
+(* initial point and returned series: EBCM_pref_mix starts at Phi_pm(1, 0) and returns, on the subspace, EBCM's S = N psihat(theta), R *)
+Lemma pm_IC_on_subspace Pk N tau g : veq (pm_IC Pk) (Phi_pm Pk N tau g 1 0).
+Proof.
+  unfold pm_IC, Phi_pm. constructor; [unfold Qdiv; ring|].
+  apply concat_veq. intros kp _. constructor; [reflexivity|]. constructor; [ring|constructor].
+Qed.
+Lemma pm_outputs_agree Pk N rho tau g theta R : ~ N == 0 ->
+  pm_out_S Pk N rho (Phi_pm Pk N tau g theta R) == N * ((1 - rho) * pk_psi Pk theta) /\
+  pm_out_R N (Phi_pm Pk N tau g theta R) == R.
+Proof.
+  intros HN. split.
+  - unfold pm_out_S, pk_psi. apply Qmult_comp; [reflexivity|]. apply Qmult_comp; [reflexivity|].
+    apply dsum_ext. intros k p Hin.
+    rewrite (proj1 (theta_on_subspace Pk tau g N theta R k (in_keys _ _ _ Hin))). reflexivity.
+  - unfold pm_out_R, Phi_pm. cbn [vnth nth]. field. exact HN.
+Qed.
+
 (* DPhi_pm is the formal derivative of the (affine) polynomial map behind Phi_pm *)
 Lemma Phi_pm_poly Pk N tau g theta R :
   veq (Phi_pm Pk N tau g theta R) ((R / N) :: pm_eval (pm_p Pk tau g) theta) /\
@@ -242,3 +259,9 @@ Proof. intros ND. split; [apply pk_psi_poly; exact ND|apply pk_psiP_poly; exact 
 
 (* example used by Props/C07x.v *)
 Definition ex_Pk : pkdict := [(1%nat, 1 # 2); (3%nat, 1 # 2)].
+
+Lemma prefmix_initial_point_and_outputs Pk N rho tau g theta R :
+  veq (pm_IC Pk) (Phi_pm Pk N tau g 1 0) /\
+  (~ N == 0 -> pm_out_S Pk N rho (Phi_pm Pk N tau g theta R) == N * ((1 - rho) * pk_psi Pk theta) /\
+               pm_out_R N (Phi_pm Pk N tau g theta R) == R).
+Proof. split; [apply pm_IC_on_subspace|apply pm_outputs_agree]. Qed.
